@@ -176,18 +176,21 @@ def root_cause(kind, m):
     """the signature's second component: the generalised shape, except for failures located in one
     rewrite rule whose instances have no single shape"""
     if kind.startswith("raise:ValueError") and m[0] == "op" and m[1] in ROT and len(m[2]) == 2:
-        ws, x = set(), m
-        while x[0] == "op" and x[1] in ROT and len(x[2]) == 2:
-            ws.add(swidth(x[2][1]))
-            x = x[2][0]
-            # the rule sees its operand after simplification: (A <<< c1) << 0 is (A <<< c1)
-            try:
-                from miasmx.expression.expression_helper import expr_simp
-                x = exprgen.to_script(expr_simp(exprgen.build(x)))
-            except Exception:
-                pass
-        if len(ws) > 1:
-            return "rotate-merge rule applied to counts of different widths"
+        # widths of the counts along the rotate chain, read both as written and as the rule sees it (operand simplified first:
+        # (A <<< c1) << 0 is (A <<< c1))
+        for simplify in (False, True):
+            ws, x = set(), m
+            while x[0] == "op" and x[1] in ROT and len(x[2]) == 2:
+                ws.add(swidth(x[2][1]))
+                x = x[2][0]
+                if simplify:
+                    try:
+                        from miasmx.expression.expression_helper import expr_simp
+                        x = exprgen.to_script(expr_simp(exprgen.build(x)))
+                    except Exception:
+                        pass
+            if len(ws) > 1:
+                return "rotate-merge rule applied to counts of different widths"
     return shape(m)
 
 
